@@ -1,5 +1,6 @@
 import MosnVerif.Drive.Util
 import MosnVerif.Drive.C20
+import MosnVerif.Drive.C12
 import MosnVerif.Model.ConfigCodec
 import MosnVerif.Model.ConfigDir
 import MosnVerif.Model.ConfigPairs2
@@ -156,6 +157,8 @@ def resolverOf (tbl : List (String × Option String × Option String)) (n a : St
 
 def run (caseToks impl : List String) : String :=
   match caseToks with
+  -- router histories mixing directory-mode, static and code-built configurations, then dump → reload (the `mode` cases of C12)
+  | "dynupd" :: ops => MosnVerif.Drive.C12.mode ops impl
   | ["generic", s, w] =>
     match shapeOf s, getJson w, implPair impl with
     | some sh, some w, some im => verdict (cycle2 (decode sh) (encode sh) w) im
